@@ -7,7 +7,7 @@ bubbling up}.  Oracle on the event log: everything under root key r1 precedes ev
 """
 import json
 
-from vf import doc, explore, harness, sched, seeds
+from vf import doc, explore, harness, sched, seeds, schema as S
 from vf.data import Scenario, build_root
 from vf.model import execute as X
 from vf.props import c02
@@ -39,13 +39,23 @@ DOCS = [
     "mutation { set(v: \"x\") { name id a } inc other { strict b } }",
 ]
 # sibling fields awaited in place or gathered, per field: default (all gathered) and the two alternating assignments
-CONFIGS = ["default", "mixed-even", "mixed-odd", "engine-sequential"]
+CONFIGS = ["default", "mixed-even", "mixed-odd", "engine-sequential", "renamed-roots"]
+# the same schema with other names for the root types (declared through a `schema { ... }` block)
+K_RENAMED = S.parse_sdl(seeds.K_SDL.replace("type Mutation {", "type RootM {").replace("type Query {", "type RootQ {")
+                        .replace("type Subscription {", "type RootS {") + "\nschema { query: RootQ mutation: RootM subscription: RootS }\n")
+
+
+def schema_for(cfg):
+    return K_RENAMED if cfg == "renamed-roots" else seeds.K
+
 
 
 def engine_for(cfg):
     schema = seeds.K
     if cfg == "default":
         return explore.engine_for("K", schema)
+    if cfg == "renamed-roots":
+        return explore.engine_for(("C09", cfg), K_RENAMED)
     if cfg == "engine-sequential":
         # the engine-wide options; @Resolver's own default (parent_concurrently=True) still applies to every field with a resolver
         return explore.engine_for(("C09", cfg), schema, coerce_parent_concurrently=False, coerce_list_concurrently=False)
@@ -93,12 +103,12 @@ def placements(schema, located, variables, root, overrides):
 def run_shard(item):
     di, tier = item[0], item[1]
     cfg = item[2] if len(item) > 2 else "default"
-    schema = seeds.K
+    schema = schema_for(cfg)
     engine = engine_for(cfg)
     out = {"counts": {"schedules": 0, "choice_points": 0, "cases": 0, "nontrivial": 0}, "tables": {"roots": {}}, "sets": {},
            "samples": [], "violations": [], "machinery": [], "caps": []}
-    text, located = doc.roundtrip(doc.parse(DOCS[di]))
-    root = build_root(schema, "Mutation", 2)
+    text, located = doc.roundtrip(doc.parse(DOCS[di].replace(" on Mutation", " on " + schema.mutation)))
+    root = build_root(schema, schema.mutation, 2)
     a1 = build_root(schema, "A", 3, depth=2)
     a2 = build_root(schema, "A", 4, depth=2)
     overrides = {("many",): [a1, a2], ("req",): a1, ("other",): build_root(schema, "B", 5, depth=2)}
